@@ -35,6 +35,15 @@ package pbytes
 //@   mode bv
 //@   requires max <= pmath.maxintHeadBit
 //@   ensures result != nil && pool.inv(result.pool)
+//@   ensures step_bound: implies(max <= 1<<46, result.pool.stepSize <= 1<<47)
+
+// The package initialiser builds DefaultPool with New: together with `globals immutable` below
+// (DefaultPool is stored nowhere else, the fields of the sharded pool are never stored after New)
+// this discharges the first entry assumption of the wrappers - only the ghost shard invariant
+// SIall, a statement about what callers have Put so far, stays assumed.
+//@ func init
+//@   mode bv
+//@   ensures default_pool: DefaultPool != nil && pool.inv(DefaultPool.pool) && DefaultPool.pool.stepSize <= 1<<47
 
 // Package-level wrappers around DefaultPool. The global invariant of DefaultPool
 // (established by New, preserved by every Put and Get, see pool.Pool.Put#post:shard)
